@@ -83,10 +83,16 @@ def history(rng, t, n, ao, ab, nops, probes=True, fresh=None):
     """token list. `fresh` = set of cells already drawn (to steer between new cells and repeats)."""
     toks = []
     drawn = set() if fresh is None else fresh
+    # the flags of MockDisplay::new() are (false, false): half of the time a flag that keeps its default is NOT set explicitly,
+    # so that the defaults themselves are exercised
+    first = []
+    if ao or rng.random() < 0.5:
+        first.append('ao:%d' % ao)
+    if ab or rng.random() < 0.5:
+        first.append('ab:%d' % ab)
     if rng.random() < 0.5:
-        toks += ['ao:%d' % ao, 'ab:%d' % ab]
-    else:
-        toks += ['ab:%d' % ab, 'ao:%d' % ao]
+        first.reverse()
+    toks += first
     # how eager this history is to provoke a panic
     p_out = rng.choice([0.0, 0.0, 0.1, 0.3]) if not ab else rng.choice([0.1, 0.3, 0.5])
     p_rep = rng.choice([0.0, 0.0, 0.1, 0.3]) if not ao else rng.choice([0.2, 0.4, 0.6])
@@ -284,7 +290,10 @@ def search(tier, rng):
         else:
             b = history(rng, t, n, 1, 1, rng.choice([0, 1, 2, 4]), probes=False)
         yield J('p_mock_eq', t, *a, '/', *b)
+        if i % 2 == 0:
+            yield J('p_mock_assert', t, *a, '/', *b)
     yield from one_cell_pairs(rng, 'p_mock_eq')
+    yield from one_cell_pairs(rng, 'p_mock_assert')
     n_pat = 500 if tier == 'quick' else 6000
     for i in range(n_pat):
         t, n = TYPES[i % len(TYPES)]
